@@ -149,6 +149,7 @@ pub fn lookup(prop: &str) -> Option<CaseFn> {
 /// Size of the finite case space that a property enumerates completely (if any).
 pub fn case_count(prop: &str, tier: crate::runner::Tier) -> Option<u64> {
     match prop {
+        "C12" => Some(c12::case_count(tier)),
         "C13" => Some(c13::case_count(tier)),
         _ => None,
     }
